@@ -13,6 +13,7 @@ REPO = os.environ.get('VERIF_REPO', '/repo')
 TARGET = os.path.join(ROOT, 'build', 'cargo-target')
 # scratch copies of the repository live outside /repo and /verif; /var/tmp rather than /tmp (a harness may clear /tmp between commands)
 SCRATCH_BASE = os.environ.get('VERIF_SCRATCH') or ('/var/tmp' if os.access('/var/tmp', os.W_OK) else tempfile.gettempdir())
+os.makedirs(SCRATCH_BASE, exist_ok=True)
 
 APPEND = {
     'src/fixed/method.rs': 'hooks_fixed_method.rs',
